@@ -7,6 +7,7 @@ import (
 	"os"
 	"path/filepath"
 	"strings"
+	"sync"
 	"time"
 
 	"github.com/notaryproject/notation-core-go/revocation"
@@ -184,6 +185,31 @@ func newNet(in *Input) *netsim.Sim {
 		net.Handle(route, func(*netsim.Request) netsim.Reply {
 			return netsim.Reply{Body: b, Class: "scripted", ContentLength: l}
 		})
+	}
+	if in.Together {
+		var mu sync.Mutex
+		waiting, gate := 0, make(chan struct{})
+		net.OnRequest = func(int, *netsim.Request) {
+			mu.Lock()
+			waiting++
+			if waiting >= 2 {
+				close(gate)
+				gate, waiting = make(chan struct{}), 0
+				mu.Unlock()
+				return
+			}
+			g := gate
+			mu.Unlock()
+			select {
+			case <-g:
+			case <-time.After(3 * time.Millisecond):
+				mu.Lock()
+				if g == gate && waiting > 0 {
+					waiting--
+				}
+				mu.Unlock()
+			}
+		}
 	}
 	net.Default = func(r *netsim.Request) netsim.Reply {
 		if _, ok := pki.ParseOCSPRequest(r.Body); ok {
